@@ -921,6 +921,22 @@ impl<'a, E: Eng> Cx<'a, E> {
                     let palindrome = bits_be.iter().eq(bits_be.iter().rev());
                     self.rep.class_if(!palindrome, "mul_bits_be with a bit string that is not a palindrome");
                     gt!("mul_bits_be", !e.is_zero(), x.mul_bits_be(bits_be.iter().copied()), expected, "scalar_class": label, "scalar": e);
+                    // the same integer as bit strings whose length is not a multiple of 64: leading zeros
+                    // stripped, exactly MODULUS_BIT_SIZE bits, and three extra leading zeros
+                    let stripped: Vec<bool> = bits_be.iter().copied().skip_while(|b| !b).collect();
+                    let nbits = <E::ScalarField as PrimeField>::MODULUS_BIT_SIZE as usize;
+                    let exact: Vec<bool> = bits_be[bits_be.len() - nbits..].to_vec();
+                    let mut padded = vec![false; 3];
+                    padded.extend(bits_be.iter().copied());
+                    self.rep.class_if(stripped.len() > 64 && stripped.len() % 64 != 0, "mul_bits_be with a bit string longer than 64 bits whose length is not a multiple of 64");
+                    gt!("mul_bits_be-stripped", !e.is_zero(), x.mul_bits_be(stripped.iter().copied()), expected, "scalar_class": label, "scalar": e, "bits": stripped.len());
+                    gt!("mul_bits_be-modulus-bits", !e.is_zero(), x.mul_bits_be(exact.iter().copied()), expected, "scalar_class": label, "scalar": e, "bits": exact.len());
+                    gt!("mul_bits_be-padded", !e.is_zero(), x.mul_bits_be(padded.iter().copied()), expected, "scalar_class": label, "scalar": e, "bits": padded.len());
+                    // a Miller-loop value scaled by s and then exponentiated is the pairing value scaled by s
+                    let ml = E::multi_miller_loop([self.g1(0)], [self.g2(0)]);
+                    if let (Some(a), Some(b)) = (E::final_exponentiation(ml * s), E::final_exponentiation(ml)) {
+                        gt!("miller-loop-output-mul-scalar", !e.is_zero(), a, b.0.pow(s.into_bigint()), "scalar_class": label, "scalar": e);
+                    }
                 }
             }
             gt!("mul_bigint-of-identity", false, zero.mul_bigint(self.scalar(4).into_bigint()), one,);
